@@ -260,7 +260,10 @@ def _uses_unsupported(clause):
     return any(w in clause for w in ("fs[", "fs ==", "(fs", " fs", "fresh_obj", "raised("))
 
 
-def search(E, reg, qualname, contract, targets, seed=0, tries=400):
+_STATS = None
+
+
+def search(E, reg, qualname, contract, targets, seed=0, tries=400, stop_early=True):
     """targets: list of (obligation id, kind, clause text or None) -> {oid: witness dict}"""
     out = {}
     try:
@@ -354,9 +357,9 @@ def _stable_key(x):
     return ("obj", type(x).__name__)
 
 
-def _search_loop(E, reg, contract, fn, owner, ptys, rng, todo, compiled, reqs, g, out, tries):
+def _search_loop(E, reg, contract, fn, owner, ptys, rng, todo, compiled, reqs, g, out, tries, stop_early=True):
     for _ in range(tries):
-        if len(out) == len(todo):
+        if stop_early and len(out) == len(todo):
             break
         gen = Gen(E, rng)
         try:
@@ -387,6 +390,8 @@ def _search_loop(E, reg, contract, fn, owner, ptys, rng, todo, compiled, reqs, g
         shown = {k: _short(v) for k, v in args.items()}
         try:
             result = fn(**args)
+            if hasattr(result, "__next__"):
+                result = list(result)          # iterators are observed as the list of what they yield
             raised = None
         except Exception as e:      # noqa
             result, raised = None, e
@@ -410,7 +415,11 @@ def _search_loop(E, reg, contract, fn, owner, ptys, rng, todo, compiled, reqs, g
                 if DEBUG:
                     print("search: clause evaluation failed:", type(e).__name__, e)
                 continue
-            if not ok:
+            if _STATS is not None and oid in _STATS:
+                _STATS[oid]["evaluations"] += 1
+                if result:
+                    _STATS[oid]["true_nontrivial"] += 1
+            if not ok and oid not in out:
                 out[oid] = {"inputs": shown, "observed": f"result = {_short(result)}", "clause": cl}
     return out
 
@@ -443,3 +452,18 @@ def _short(v):
     if "object at 0x" in r and hasattr(v, "__dict__"):
         r = f"{type(v).__name__}({', '.join(f'{k}={_short(x)}' for k, x in list(vars(v).items())[:8])})"
     return r if len(r) < 700 else r[:700] + "..."
+
+
+def bounded_check(E, reg, qualname, contract, tries=2000, seed=0):
+    """BOUNDED stand-in for a function outside the solver's reach: every clause of the contract is evaluated natively on `tries`
+    generated inputs of the real function.  Returns per-clause statistics and the first failing input, never a proof."""
+    targets = [(f"{qualname}/post#{i}" + (f"[{lab}]" if lab else ""), "post", e) for i, (lab, e) in enumerate(contract.ensures)]
+    stats = {oid: {"evaluations": 0, "true_nontrivial": 0} for oid, _, _ in targets}
+    found = {}
+    global _STATS
+    _STATS = stats
+    try:
+        found = search(E, reg, qualname, contract, targets, seed=seed, tries=tries, stop_early=False)
+    finally:
+        _STATS = None
+    return stats, found
